@@ -53,6 +53,7 @@ type ncluster struct {
 	WriteCliTO int
 	ReadAgain  int
 	ReqBuf     int
+	ResFlush   int // ResFlushInterval ms (-1 off, 0 default)
 }
 
 type nconf struct {
@@ -131,7 +132,7 @@ func (c *nconf) writeData(root string) {
 			"CheckConf":   map[string]interface{}{"Schem": "tcp", "FailNum": 1000, "CheckInterval": 1000},
 			"GslbBasic":   map[string]interface{}{"CrossRetry": cl.CrossRetry, "RetryMax": cl.RetryMax, "HashConf": map[string]interface{}{"HashStrategy": 1, "SessionSticky": false}},
 			"ClusterBasic": map[string]interface{}{"TimeoutReadClient": cl.ReadCliTO, "TimeoutWriteClient": cl.WriteCliTO, "TimeoutReadClientAgain": cl.ReadAgain,
-				"ReqWriteBufferSize": cl.ReqBuf, "ReqFlushInterval": 0, "ResFlushInterval": -1, "CancelOnClientClose": false},
+				"ReqWriteBufferSize": cl.ReqBuf, "ReqFlushInterval": 0, "ResFlushInterval": cl.ResFlush, "CancelOnClientClose": false},
 		}
 		gslb[cl.Name] = cl.SubWeights
 		subs := map[string]interface{}{}
@@ -179,9 +180,7 @@ func startNode(s *simrt.Sim, net *simnet.Net, c *nconf, modules []string) (*node
 	root := confRoot()
 	// process-wide caches of the package are part of the run's state: start every run
 	// from the same point (a run must not depend on earlier runs of the process)
-	statusMu.Lock()
-	statusLines = make(map[int]string)
-	statusMu.Unlock()
+	resetProcessCaches()
 	c.writeData(root)
 	cfg, err := bfe_conf.BfeConfigLoad(filepath.Join(root, "bfe.conf"), root)
 	if err != nil {
